@@ -499,11 +499,11 @@ impl Material {
         for _ in 0..mat_data.file_header.texture_count {
             let mut string = String::new();
 
-            let mut next_char = mat_data.strings[offset] as char;
+            let mut next_char = *mat_data.strings.get(offset)? as char;
             while next_char != '\0' {
                 string.push(next_char);
                 offset += 1;
-                next_char = mat_data.strings[offset] as char;
+                next_char = *mat_data.strings.get(offset)? as char;
             }
 
             texture_paths.push(string);
@@ -516,11 +516,11 @@ impl Material {
 
         offset = mat_data.file_header.shader_package_name_offset as usize;
 
-        let mut next_char = mat_data.strings[offset] as char;
+        let mut next_char = *mat_data.strings.get(offset)? as char;
         while next_char != '\0' {
             shader_package_name.push(next_char);
             offset += 1;
-            next_char = mat_data.strings[offset] as char;
+            next_char = *mat_data.strings.get(offset)? as char;
         }
 
         let mut constants = Vec::new();
